@@ -1,1 +1,33 @@
-From HV Require Import Evm.ExecModel.
+(** Property C16 — a precompile call has exactly the effect of the native message.
+    Only statements; closed by lemmas of Evm/SupplyProofs.v. *)
+From Coq Require Import ZArith List.
+From stdpp Require Import gmap.
+From HV Require Import Evm.ExecModel Evm.SupplyProofs Evm.Witnesses.
+Local Open Scope Z_scope.
+
+(** For every method and every argument value, in every state: when the account owner
+    calls the precompile directly, the Cosmos-side effect of the precompile body
+    (delegations, unbondings, rewards, withdraw address, grants, bank balances) and its
+    success or failure are exactly those of the native message.  Partial: the statement
+    is about the effect before the transaction's final StateDB commit. *)
+Theorem C16_owner_call_cosmos_effect_eq_native_partial :
+  forall W D o p, who_of p = o ->
+    let '(W1, _, oc) := pre_body W D o o p in
+    let '(W2, oc2) := native W p in
+    W1 = W2 /\ oc = oc2.
+Proof. exact owner_call_cosmos_effect_eq_native. Qed.
+Print Assumptions C16_owner_call_cosmos_effect_eq_native_partial.
+
+(** ... and the final commit is where the whole-transaction statement fails on the
+    unchanged tree (known finding K6): delegate with pending rewards. *)
+Theorem C16_delegate_with_pending_rewards_refuted_K6 :
+  model_obs w_k6_eoa_delegate = impl_obs w_k6_eoa_delegate /\
+  b_ok (model_obs w_k6_eoa_delegate) = true /\ b_supply (model_obs w_k6_eoa_delegate) = -1499.
+Proof. exact k6_refuted. Qed.
+Print Assumptions C16_delegate_with_pending_rewards_refuted_K6.
+
+(** non-vacuity: an owner call without pending rewards, reproduced exactly *)
+Theorem C16_owner_call_reproduced_example :
+  model_obs w_ok_setwithdraw = impl_obs w_ok_setwithdraw /\ b_ok (model_obs w_ok_setwithdraw) = true.
+Proof. vm_compute. auto. Qed.
+Print Assumptions C16_owner_call_reproduced_example.
